@@ -307,6 +307,7 @@ func replay(t *testing.T, c *vk.Ctx) {
 			Scenario string   `json:"scenario"`
 			Choices  []int    `json:"choices"`
 		} `json:"case"`
+		Key string `json:"key"`
 	}
 	if err := vk.ReadJSON(c.Replay, &rf); err != nil {
 		c.Broken("replay file: %v", err)
@@ -336,7 +337,9 @@ func replay(t *testing.T, c *vk.Ctx) {
 		var td *teardown
 		fs, at := r.exec(rf.Case.History, true, func(w *world, m *model, st *stepper) []finding {
 			fmt.Println("final state:", r.stateKey(w, m, w.dump()))
-			if rf.Case.Teardown == "" {
+			// a finding made while a teardown was still running is recorded with the history up to that step: the
+			// emptiness the complete teardown must reach is only demanded when that is what the recorded violation says
+			if rf.Case.Teardown == "" || !strings.Contains(rf.Key, "teardown-leak") {
 				return nil
 			}
 			// the teardown events are part of the stored history; which maps must be empty follows from its name
